@@ -99,7 +99,8 @@ def rmw_of(body):
         return "RPostInc"
     if e == ("op", "operator++", g):
         return "RPreInc"
-    if e[0] == "mcall" and e[1] == "fetch_add" and e[2] == g and e[3:] == (("int", "1"),):
+    if e[0] == "mcall" and e[1] == "fetch_add" and e[2] == g and e[3:4] == (("int", "1"),) \
+            and (len(e) == 4 or (len(e) == 5 and e[4][0] == "ref" and e[4][1].startswith("memory_order"))):
         return "RFetchAdd1"
     return "ROther"
 
